@@ -103,6 +103,8 @@ PROPS["C04"] = dict(
         "'the same session and identifier' is read per direction: an exchange started by the peer (stored PUBREC, PUBREL awaited) and an exchange started by the broker may use the same number at the same time (MQTT: independent identifier spaces; repair 512b194)",
     ],
     runs=[
+        # long histories: a key registered again exactly 256n / 65536n registrations later (per-queue counters that wrap)
+        dict(name="long", pkg="c04", run="TestLongHistories", checks=dict(quick=480, thorough=8000), shards=16, timeout=dict(quick=400, thorough=2400), shrinktime="60s"),
         dict(name="regress", pkg="c04", run="TestRegress"),
         dict(name="enum", pkg="c04", run="TestEnum", shards=dict(quick=2, thorough=16), timeout=dict(quick=300, thorough=1800)),
         dict(name="random", pkg="c04", run="TestRandom", checks=dict(quick=200000, thorough=1500000),
@@ -414,6 +416,8 @@ PROPS["C05"] = dict(
           "Distinct = distinct case."),
     assumptions=["all subscriptions are known cluster-wide before the publishes (gossip delivered)", "acknowledgement ordering is judged at quiescence: acked => every destination write succeeded"],
     runs=[
+        # a destination that stalls for 6.5 / 9 s of real time and then refuses the write (whatever patience the broker has is real time)
+        dict(name="hang", pkg="c05", run="TestHangingRemote", timeout=400),
         dict(name="regress", pkg="c05", run="TestRegress", timeout=300),
         dict(name="subsets", pkg="c05", run="TestFaultSubsets", timeout=400),
         dict(name="random", pkg="c05", run="TestRandom", checks=dict(quick=960, thorough=8000), shards=16, timeout=dict(quick=400, thorough=2400), shrinktime="90s"),
